@@ -192,27 +192,10 @@ def check_deposit_wiring(ctx, model):
                 pools.append(sorted(idx))
             deps_ = []
             for a in t["args"][1:4]:
-                # deposit_i = assets.iter().find(|a| a.info.equal(&pools[i].info)).map(|a| a.amount)
-                found = set()
-                for o in v.origins_of_operand(a, at=v.at_term(b)):
-                    c = call_of(v, o)
-                    if not c or not mname(c[1]).endswith("Option::map"):
-                        found.add("?")
-                        continue
-                    for fo in v.origins_of_operand(c[1]["args"][0], at=v.at_term(c[0])):
-                        fc = call_of(v, fo)
-                        if not fc or not mname(fc[1]).endswith("Iterator>::find"):
-                            found.add("?")
-                            continue
-                        for co in v.origins_of_operand(fc[1]["args"][1], at=v.at_term(fc[0])):
-                            if co.kind == "closure" and co.a in model.fnsrc:
-                                cv = model.view(co.a)
-                                chain = ((v.path, fc[0], "closure"),)
-                                for xb, xt in cv.calls_to(r"AssetInfo::equal$"):
-                                    for arg in xt["args"]:
-                                        for r in resolve(model, chain, cv, cv.origins_of_operand(arg, at=cv.at_term(xb))):
-                                            if r.kind == "call" and r.a.endswith("query_pools") and r.proj and r.proj[-1] == "info":
-                                                found.add(r.proj[0])
+                # deposit_i = assets.iter().find(|a| a.info.equal(&pools[i].info)).map(|a| a.amount), or the array filled
+                # position by position next to the pools (zip): decided by the shared helper
+                from .stablemath import deposit_pool_index
+                found = set(deposit_pool_index(v, model, a, v.at_term(b)))
                 deps_.append(sorted(found))
             want = [["[0]"], ["[1]"], ["[2]"]]
             ctx.ob("C04-A5", "%s|mint-helper-operands-in-pool-order" % PL3, pools == want and deps_ == want,
